@@ -456,6 +456,9 @@ pub struct Shadow {
     fsyncs: HashMap<u64, (Option<u64>, Vec<u64>)>,
     /// id of a file op -> inode; id of a dir op -> None
     id_target: HashMap<u64, Option<u64>>,
+    /// POSIX-strict directory model: a file's creation becomes durable only through an fsync of the
+    /// DIRECTORY issued after it (default, lenient: also through an fsync of the file itself).
+    pub strict_dir: bool,
 }
 
 impl Shadow {
@@ -599,7 +602,7 @@ impl Shadow {
                             // lenient: an fsynced file's creation is durable
                             let mut rest = Vec::new();
                             for d in std::mem::take(&mut self.dir_pending) {
-                                if d.create && d.inode == ino {
+                                if d.create && d.inode == ino && !self.strict_dir {
                                     self.dir_durable.insert(d.name.clone(), d.inode);
                                 } else {
                                     rest.push(d);
